@@ -17,6 +17,9 @@ Qed.
 Lemma snoc_app {A} (d : list A) b r : (d ++ [b]) ++ r = d ++ b :: r.
 Proof. now rewrite <- app_assoc. Qed.
 
+Lemma firstn_snoc_len {A} (d : list A) b r : firstn (S (length d)) (d ++ b :: r) = d ++ [b].
+Proof. induction d as [|x d IH]; simpl; [reflexivity|]. f_equal. exact IH. Qed.
+
 Lemma firstn_S_nth (p : bytes) k : k < length p -> firstn (S k) p = firstn k p ++ [nth k p 0%N].
 Proof.
   revert k. induction p as [|c p IH]; intros k L; simpl in L; [lia|].
@@ -164,11 +167,7 @@ Section Kmp.
         destruct (Nat.eq_dec j (S (length done))) as [->|Nj].
         * rewrite <- Lp, nth_middle. 
           replace (firstn (length pf) (tl p)) with (done ++ [b]); [exact Hc|].
-          rewrite Et, Lp. rewrite <- (snoc_app done b rest).
-          rewrite firstn_app. replace (S (length done) - length (done ++ [b])) with 0
-            by (rewrite app_length; simpl; lia).
-          simpl. rewrite app_nil_r.
-          rewrite firstn_all2; [reflexivity|]. rewrite app_length. simpl. lia.
+          rewrite Et, Lp. now rewrite firstn_snoc_len.
         * rewrite app_nth1 by lia. apply Ht. lia.
       + rewrite app_length. simpl. rewrite Nat.add_1_r, <- Lp. now rewrite nth_middle.
   Qed.
